@@ -1,6 +1,7 @@
 import FlowRecordProofs.Lemmas.KwCtor
 import FlowRecordProofs.Lemmas.Sqlite
 import FlowRecordProofs.Lemmas.SqliteSessions
+import FlowRecordProofs.Lemmas.Readers
 /-!
 C18 — SQLite export keeps every record, independent of batch size.
 
@@ -327,7 +328,30 @@ theorem C18_sessions_like_one_writer {DT : Type} (E : Env DT) (b b' : Nat) (ss :
   rw [h2, writesOf_append_close]
 
 -- Non-vacuity: concrete histories meet the hypotheses and exercise batching, evolution and refusals.
+/-- Reading is independent of the reader's batch size, with or without a selector: `read_table` fetches
+    `batch_size` rows at a time and stops at the first EMPTY fetch (`Gen.sqliteReadTableBatches`), and the selector is
+    consulted in `__iter__`, after the batches, not inside the fetch loop (`Gen.sqliteReadTableConsultsSelector = false`: a
+    batch without a single match is not the end of the table). So for every batch size >= 1, every database (tables of
+    rows), every row decoder and every selector, the reader yields what it yields when each table is fetched in one
+    piece - and with a selector that is exactly: read everything, filter afterwards. -/
+theorem C18_reader_independent_of_batch_size {X R E : Type} (mk : X → Except E R)
+    (sel : Option (Readers.Matcher R E)) (tables : List (List X)) (batch : Nat) (hb : 1 ≤ batch) :
+    Gen.sqliteReadTableBatches = true ∧ Gen.sqliteReadTableConsultsSelector = false ∧
+    Readers.sqliteLoop Readers.genCfg.sqliteGuarded mk sel (tables.map (Readers.tableBatches batch)) =
+      Readers.sqliteLoop Readers.genCfg.sqliteGuarded mk sel (tables.map fun rows => [rows]) := by
+  refine ⟨by decide, by decide, ?_⟩
+  simp only [Readers.sqliteLoop]
+  congr 1
+  induction tables with
+  | nil => rfl
+  | cons t ts ih =>
+    simp only [List.map_cons, List.flatMap_cons, ih]
+    congr 1
+    have := Readers.tableBatches_flatten batch hb t
+    simpa [List.flatMap_id'] using this
+
 namespace C18_nonvacuous
+example : Readers.tableBatches 2 [1, 2, 3, 4, 5] = [[1, 2], [3, 4], [5]] := by decide
 def E : Env Unit := { iso := fun _ => [50, 48], store := affinityStore }
 def dA : Desc := { name := [116, 47, 97], fields := [([115], "string"), ([110], "varint")] }
 def dA2 : Desc := { name := [116, 47, 97], fields := [([115], "string"), ([110], "varint"), ([98], "bytes")] }
